@@ -138,9 +138,12 @@ ICond(nu, v, c) ==
   LET rs == {IAtom(nu, v, c.atoms[i]) : i \in 1..Len(c.atoms)}
   IN IF c.join = "or" THEN OrAll3(rs) ELSE AndAll3(rs)
 
-\* final value equals one of the options, compared in the node's unit
-IOpts(nu, v, c) ==
-  OrAll3({ IF o.t = "str" THEN B3(v.s = o.s) ELSE IEq(DistL(v, o, nu)) : o \in Range(c.vals) })
+\* final value equals one of the options, compared in the node's unit; the per-line options and
+\* all !options lists of a node "combine into a single array of options"
+IOptsAll(nu, v, cs) ==
+  LET os == OptVals(cs) IN
+  IF os = {} THEN "T"
+  ELSE OrAll3({ IF o.t = "str" THEN B3(v.s = o.s) ELSE IEq(DistL(v, o, nu)) : o \in os })
 
 \* the whole value matches the pattern; a match of a proper prefix only is left open unless
 \* the pattern is anchored at its end (the documentation says "regular expression" and shows
@@ -149,7 +152,8 @@ IFmt(v, c) ==
   LET cl == FmtTable[c.pat].cls[v.s]
   IN IF cl = "full" THEN "T" ELSE IF cl = "prefix" /\ ~FmtTable[c.pat].end THEN "U" ELSE "F"
 
-IHolds(nu, v, c) == CASE c.c = "opts" -> IOpts(nu, v, c) [] c.c = "cond" -> ICond(nu, v, c) [] c.c = "fmt" -> IFmt(v, c)
+\* a !condition or !format line holds of v
+IHolds(nu, v, c) == CASE c.c = "cond" -> ICond(nu, v, c) [] c.c = "fmt" -> IFmt(v, c)
 
 InBounds(sh, dims) == /\ Len(sh) = Len(dims)
                       /\ \A i \in 1..Len(dims) : /\ (dims[i][1] = -1 \/ sh[i] >= dims[i][1])
@@ -168,10 +172,10 @@ Ideal3(p) ==
   ELSE IF f.t = "none" THEN "U"                           \* "has a value" vs "none is a value"
   ELSE LET conds == OfKind(p.cons, "cond")
            fmts  == OfKind(p.cons, "fmt")
-           opts  == OfKind(p.cons, "opts")
-           all   == AndAll3({IHolds(p.nu, f, c) : c \in Range(p.cons)})
-           lastonly == AndAll3({IHolds(p.nu, f, c) : c \in Range(opts)
-                                  \cup (IF conds = <<>> THEN {} ELSE {Last(conds)})
+           opts  == IOptsAll(p.nu, f, p.cons)
+           all   == AndAll3({opts} \cup {IHolds(p.nu, f, c) : c \in Range(conds) \cup Range(fmts)})
+           lastonly == AndAll3({opts} \cup {IHolds(p.nu, f, c) : c \in
+                                  (IF conds = <<>> THEN {} ELSE {Last(conds)})
                                   \cup (IF fmts = <<>> THEN {} ELSE {Last(fmts)})})
            vals  == {asg[i] : i \in {j \in 1..Len(asg) : asg[j].t # "none"}}
            each  == AndAll3({all} \cup {ICond(p.nu, v, c) : v \in vals, c \in Range(conds)})
@@ -186,7 +190,8 @@ AmbTags(p) ==
   ELSE IF IsArr(p) THEN {"intermediate_dims"}
   ELSE IF Last(asg).t = "none" THEN {"final_none"}
   ELSE LET f == Last(asg)
-           all == AndAll3({IHolds(p.nu, f, c) : c \in Range(p.cons)})
+           all == AndAll3({IOptsAll(p.nu, f, p.cons)}
+                          \cup {IHolds(p.nu, f, c) : c \in Range(OfKind(p.cons, "cond")) \cup Range(OfKind(p.cons, "fmt"))})
        IN IF all = "U" THEN {"band"} ELSE IF all = "F" THEN {"several_conditions_or_formats"}
           ELSE {"several_or_intermediate_condition"}
 
@@ -274,9 +279,11 @@ DevWords(d) ==
     [] d = "int_literal_cast"     -> {"condition", "int_node", "fractional_literal"}
     [] d = "attach_last_appended" -> {"placement", "after_modification", "bystander"}
     [] OTHER                      -> {"open_band"}
+\* when no single deviation decides, the pairs that together restore the ideal
+CausalPairs(p) == UNION {S \in SUBSET Devs : Cardinality(S) = 2 /\ Mach(p, Devs \ S) = Ideal(p)}
 Tags(p) == IF Mach(p, Devs) = Ideal(p) \/ Ideal(p) = "unspec" THEN {}
-           ELSE IF Causal(p) = {} THEN {"joint_cause"}
-           ELSE Causal(p) \cup UNION {DevWords(d) : d \in Causal(p)}
+           ELSE LET cs == IF Causal(p) # {} THEN Causal(p) ELSE CausalPairs(p)
+                IN IF cs = {} THEN {"joint_cause"} ELSE cs \cup UNION {DevWords(d) : d \in cs}
 
 -----------------------------------------------------------------------------
 (*                  O B L I G A T I O N S  (on accept)                      *)
@@ -381,17 +388,27 @@ BoolPool1 == {Two("or", At("==", "self", Bool(TRUE)), At("==", "self", Bool(FALS
 Pool3(ty, nu) == CASE IsNum(ty) -> NumPool3(ty, nu) [] ty = "str" -> StrPool3 [] OTHER -> BoolPool3
 Pool2(ty, nu) == CASE IsNum(ty) -> NumPool2(ty, nu) [] ty = "str" -> StrPool2 [] OTHER -> BoolPool2
 Pool1(ty, nu) == CASE IsNum(ty) -> NumPool1(ty, nu) [] ty = "str" -> StrPool1 [] OTHER -> BoolPool1
-ConsPool(ty, nu) == Pool3(ty, nu) \cup Pool2(ty, nu) \cup Pool1(ty, nu)
 Lvl(c, ty, nu) == IF c \in Pool3(ty, nu) THEN 3 ELSE IF c \in Pool2(ty, nu) THEN 2 ELSE 1
+\* constant-level tables (TLC evaluates them once): per family the pool of <<constraint, level>> pairs
+\* and the value pools
+FamKeys == {<<f.ty, f.nu>> : f \in {g \in Families : ~g.arr}}
+ConsTab == [k \in FamKeys |->
+              {[c |-> x, l |-> Lvl(x, k[1], k[2])] : x \in Pool3(k[1], k[2]) \cup Pool2(k[1], k[2]) \cup Pool1(k[1], k[2])}]
+DefTab  == [k \in FamKeys |-> DefPool(k[1], k[2])]
+ModTab  == [k \in FamKeys |-> ModPool(k[1], k[2])]
+FineTab == [k \in FamKeys |-> {l \in DefPool(k[1], k[2]) \cup ModPool(k[1], k[2]) : Fine(l, k[2])}]
+IsFine(q, l) == l \in FineTab[<<q.ty, q.nu>>]
 
 Rank(c) == CASE c.c = "opts" -> (IF c.form = "lines" THEN 1 ELSE 2) [] c.c = "cond" -> 3 [] OTHER -> 4
 \* canonical order of kinds (the renderer permutes the kinds); several !condition / !format
 \* lines are kept in both orders because their order matters to the machine
-OrderOK(cs, c) == cs = <<>> \/ (IF Rank(c) <= 2 THEN Rank(c) > Rank(Last(cs)) ELSE Rank(c) >= Rank(Last(cs)))
+OrderOK(cs, c) == IF cs = <<>> THEN TRUE
+                  ELSE IF Rank(c) <= 2 THEN Rank(c) > Rank(Last(cs)) ELSE Rank(c) >= Rank(Last(cs))
 
-ValLvl(p) == IF \E l \in Range(Assigned(p)) : Fine(l, p.nu) THEN 1 ELSE 3
-Cap(p, cs) == LET m == MinOf({MaxCons, ValLvl(p)} \cup {Lvl(c, p.ty, p.nu) : c \in Range(cs)})
-              IN IF p.by.t # "nil" \/ p.place = "mod" THEN m - 1 ELSE m
+ValLvl(q) == IF \E l \in Range(Assigned(q)) : IsFine(q, l) THEN 1 ELSE 3
+\* lvs: the levels of the constraint lines chosen so far plus the candidate's
+Cap(q, lvs) == LET m == MinOf({MaxCons, ValLvl(q)} \cup lvs)
+               IN IF q.by.t # "nil" \/ q.place = "mod" THEN m - 1 ELSE m
 
 (* arrays: dimension bounds *)
 Dims1 == {<< <<2, 2>> >>, << <<2, 3>> >>, << <<-1, 2>> >>, << <<2, -1>> >>, << <<-1, -1>> >>}
@@ -400,41 +417,42 @@ Shapes(dims) == IF Len(dims) = 1 THEN {<<n>> : n \in 1..4}
                 ELSE {<<r, c>> : r \in 1..3, c \in 1..3} \cup {<<2>>}      \* <<2>>: a dimension is missing
 DimsOf(f) == IF ~f.arr THEN {<<>>} ELSE Dims1 \cup (IF f.ty \in {"int", "str"} THEN Dims2 ELSE {})
 
-VARIABLES p, ph
-vars == <<p, ph>>
+VARIABLES p, ph, lv      \* lv: levels of p.cons (generator bookkeeping, not part of the program)
+vars == <<p, ph, lv>>
 
-Init == p = Nil /\ ph = 0
+Init == p = Nil /\ ph = 0 /\ lv = {}
 
 Start == /\ ph = 0
          /\ \E f \in Families : \E dm \in DimsOf(f) :
-              \E d \in {Decl} \cup (IF f.arr THEN {ArrL(s) : s \in Shapes(dm)} ELSE DefPool(f.ty, f.nu)) :
+              \E d \in {Decl} \cup (IF f.arr THEN {ArrL(s) : s \in Shapes(dm)} ELSE DefTab[<<f.ty, f.nu>>]) :
                 p' = [ty |-> f.ty, nu |-> f.nu, dims |-> dm, def |-> d, mods |-> <<>>,
                       cons |-> <<>>, place |-> "def", by |-> Nil]
-         /\ ph' = 1
+         /\ ph' = 1 /\ lv' = {}
 
 \* only the final assignment may be a fine value; two-step chains only in coarse values (none allowed between)
 AddMod == /\ ph = 1 /\ Len(p.mods) < MaxMods
-          /\ \A l \in Range(Assigned(p)) : ~Fine(l, p.nu) \/ l.t = "none"
+          /\ \A l \in Range(Assigned(p)) : (IF ~IsArr(p) /\ IsFine(p, l) THEN l.t = "none" ELSE TRUE)
           /\ IF IsArr(p)
              THEN \E s \in Shapes(p.dims) : /\ (Len(p.dims) = 2 /\ ~Rich) => Len(p.mods) = 0
                                             /\ p' = [p EXCEPT !.mods = Append(@, ArrL(s))]
-             ELSE \E m \in ModPool(p.ty, p.nu) :
-                     /\ Len(p.mods) >= 1 => ~Fine(m, p.nu)
+             ELSE \E m \in ModTab[<<p.ty, p.nu>>] :
+                     /\ Len(p.mods) >= 1 => ~IsFine(p, m)
                      /\ p' = [p EXCEPT !.mods = Append(@, m)]
-          /\ ph' = 1
+          /\ ph' = 1 /\ lv' = lv
 
-Coarse(q) == \A l \in Range(Assigned(q)) : ~Fine(l, q.nu)
+Coarse(q) == \A l \in Range(Assigned(q)) : ~IsFine(q, l)
 SetBy == /\ ph = 1 /\ ~IsArr(p) /\ p.mods # <<>> /\ Coarse(p)
          /\ \E y \in ByPool(p.ty, p.nu) : p' = [p EXCEPT !.by = y]
-         /\ ph' = 2
+         /\ ph' = 2 /\ lv' = lv
 SetPlace == /\ ph \in {1, 2} /\ ~IsArr(p) /\ p.mods # <<>> /\ Coarse(p)
             /\ p' = [p EXCEPT !.place = "mod"]
-            /\ ph' = 3
+            /\ ph' = 3 /\ lv' = lv
 AddCons == /\ ph \in 1..4 /\ ~IsArr(p)
-           /\ \E c \in ConsPool(p.ty, p.nu) :
-                 /\ OrderOK(p.cons, c)
-                 /\ Len(p.cons) + 1 <= Cap(p, Append(p.cons, c))
-                 /\ p' = [p EXCEPT !.cons = Append(@, c)]
+           /\ \E e \in ConsTab[<<p.ty, p.nu>>] :
+                 /\ OrderOK(p.cons, e.c)
+                 /\ Len(p.cons) + 1 <= Cap(p, lv \cup {e.l})
+                 /\ p' = [p EXCEPT !.cons = Append(@, e.c)]
+                 /\ lv' = lv \cup {e.l}
            /\ ph' = 4
 
 Next == Start \/ AddMod \/ SetBy \/ SetPlace \/ AddCons
